@@ -305,10 +305,14 @@ Print Assumptions c15c_dest_order_history.
    Transaction-Finished; accepted by dhist, phase None at the end),
    dst_eof_cancel_while_waiting_for_data (an EOF (cancel) PDU while missing data is awaited: EOF-Recv in that call,
    Transaction-Finished in a later call),
+   src_eof_sent_after_ignored_fault (F34 repair: a Positive ACK Limit fault with the handler "ignore" is followed, in the
+   same call, by the EOF-Sent of the re-sent EOF PDU; fault callbacks do not change the phase, so this is accepted; the
+   next call before another expiry delivers nothing),
    dst_finished_again_by_cancel, dst_finished_again_by_ack_limit, src_fault_after_finished (see the header) *)
 Print Assumptions src_order_instance.
 Print Assumptions dst_order_instance.
 Print Assumptions dst_eof_cancel_while_waiting_for_data.
+Print Assumptions src_eof_sent_after_ignored_fault.
 Print Assumptions dst_finished_again_by_cancel.
 Print Assumptions dst_finished_again_by_ack_limit.
 Print Assumptions src_fault_after_finished.
